@@ -3,7 +3,7 @@ import importlib
 import json
 import os
 
-MODULES = ['m_block_tokenizer', 'm_block_token', 'm_span_tokenizer', 'm_core_tokens', 'm_state', 'm_toc', 'm_markdown']
+MODULES = ['m_block_tokenizer', 'm_block_token', 'm_span_tokenizer', 'm_core_tokens', 'm_state', 'm_toc', 'm_markdown', 'm_contrib']
 LEMMA_MODULES = ['l_patterns', 'l_html', 'l_latex', 'l_classes', 'l_redos']          # modules exporting LEMMAS = {key: (fn, [props])}
 
 _model = None
